@@ -73,3 +73,13 @@ for be in BACKS:
         '_Bool blocked_helper_unit(fsm_t* self, type_t EventT, _Bool has_blocking)', 'evloop_back.spec.h',
         xform=back_xform(['is_flag_active', 'EndInterruptFlag'], refparams=(), methods=['is_flag_active']),
         compose='if (has_blocking) {@0} else {@1}', replay=['block']))
+
+for be in BACKS:
+    SM = be + '/state_machine.hpp'
+    UNITS.append(Unit(be + '.process_completion_event', ['C10', 'C13'], be,
+        Part(SM, ['struct handle_eventless_transitions_helper < StateType , typename enable_if < typename has_fsm_eventless_transition < StateType > :: type > :: type >'],
+             'void process_completion_event ( EventSource source = EVENT_SOURCE_DEFAULT )'),
+        'void pce_unit(eventless_helper_t* h, EventSource source)', 'evloop_back.spec.h', defines=['UNIT_PCE=1'],
+        xform=back_xform([], refparams=(), pre_rewrites=[dict(name='TVAR-first-completion-event', pat='typedef typename deref < $*A first_completion_event ;', rep='', min=1, max=1)], rewrites=[
+            dict(name='member-handled', pat='if ( handled )', rep='if ( h -> handled )', min=1, max=1),
+            dict(name='member-call', pat='self -> process_event_internal ( first_completion_event ( ) , source | EVENT_SOURCE_DIRECT ) ;', rep='pei_completion ( h -> self , source | EVENT_SOURCE_DIRECT ) ;', min=0, max=1)]), replay=['queue']))
